@@ -34,6 +34,9 @@ CLAIMED = {
     "C14": ("generated remote_exec histories on an in-process main_thread_only worker under the deterministic scheduler (virtual time), history oracle; sampled on real popen workers with real SIGINT",
             "Generated histories (return / raise / SystemExit / interrupt / blocked, sequential or overlapping submission) run against a real WorkerGateway with the main_thread_only model inside the scheduler, so receiver-vs-main-thread interleavings and the 1-second grace wait are generated/virtual; the oracle checks thread identity of every body, strict start/end alternation in submission order, the documented deadlock error exactly for overlapping submissions, and that a submission after the previous close always runs.",
             "Sampling. Virtual time models 'threads are fast relative to the 1 s wait'. Real part small (16 quick / 400 thorough histories).", "3/C14"),
+    "C03": ("generated close histories (explicit / end of exec / reference drop, exec and sub channels) on an in-process gateway pair under the deterministic scheduler; transcript + state oracle + wire parse; focused exhaustive single preemption inside the close/receive functions",
+            "Generated conversations in which one side sends items and then closes a channel in one of the three ways while the peer has several blocked receivers and waitclose callers; executed with both ends in-process under generated schedules and line-level preemption. The oracle requires exact, ordered delivery of everything sent before the close, repeated EOFError for every receiver, waitclose returning, the documented post-close state (send OSError, isclosed, immediate waitclose, harmless second close with no second frame on the wire) on the closing side at once and on the peer once it observed the close.",
+            "Sampling of schedules; the focused single-preemption enumeration is complete only in the thorough tier (strided in quick). 'sendonly' after dropping a channel with a callback is treated as documented.", "3/C03"),
 }
 
 NOT_APPLICABLE = {}
